@@ -165,7 +165,7 @@ def outsFound (f : Found) (i : String) : List (String × AL.Ty) :=
 def needsStep (env : Env) (lower : String → String) (jobs : List (String × Job)) (job : Job)
     (acc : NeedsOut × List String) (id : Str) : NeedsOut × List String :=
   let i := lower id.value
-  if i = job.id.value then acc
+  if i = lower job.id.value then acc
   else if acc.2.contains i then acc
   else match AL.RuleExpr.lookupJob i jobs with
     | none => acc
